@@ -924,6 +924,10 @@ def connect_fault_sweep(ctx: Ctx, prop: str) -> None:
         ("tcp-dual-v4-hang-v6-ok", S(addresses=["10.0.0.7", "fd00::1"], tcp={"10.0.0.7": ["hang"]})),
         ("tcp-dual-both-refuse", S(addresses=["10.0.0.7", "fd00::7"], tcp={"10.0.0.7": ["refuse", 0.01], "fd00::7": ["unreach", 0.02]})),
         ("tcp-slow-ok", S(tcp={"10.0.0.1": ["ok-slow"]})),
+        # the device accepts the TCP connection and aborts it at once: the RST is already in the kernel when the connecting task learns that its
+        # connect succeeded (getpeername(), shutdown() answer ENOTCONN from then on)
+        ("tcp-accept-then-reset", S(tcp={"10.0.0.1": ["ok-then-rst", 0.001], "fd00::1": ["ok-then-rst", 0.001]})),
+        ("tcp-accept-then-reset-noise", S(framing="noise", tcp={"10.0.0.1": ["ok-then-rst", 0.001], "fd00::1": ["ok-then-rst", 0.001]})),
         ("setsockopt-nodelay-fails", S(sockopt_fail="nodelay")),
         ("setsockopt-rcvbuf-always-fails", S(sockopt_fail="rcvbuf")),
         ("setsockopt-quickack-unsupported", S(sockopt_fail="quickack")),
